@@ -24,7 +24,7 @@ RULE = (
     "unchanged; nancumsum with missing labels must be a clean refusal. Non-trivial = >=3 blocks and a group that skips a "
     "block or is all-NaN inside a block."
 )
-BUDGET = {"quick": 250, "thorough": 3000}
+BUDGET = {"quick": 500, "thorough": 3000}
 ASSUMPTIONS = [
     "datetime arrays for ffill/bfill carry no NaT (flox short-circuits non-float dtypes; what filling NaT means is not stated)",
     "float cumsums only on the dyadic alphabet (exact)",
